@@ -466,3 +466,11 @@ SUBS = [
     Sub("special", check_special, expr_case(), quick=400, thorough=2000),
     Sub("reject", check_reject, reject_case(), quick=500, thorough=2500),
 ]
+
+
+# objects with a history (reads that may fill caches, in-place writes): observables equal those of a fresh object
+from pbt import aged as _aged  # noqa: E402
+
+SUBS.append(_aged.sub("C03", quick=120))
+ASSUMPTIONS = list(ASSUMPTIONS) + ["aged sub-property: library results are a function of the public primary state "
+                                   "(corners, n, names, units, bc, subregions, array, validity, labels, mapping, unit)"]
